@@ -516,7 +516,8 @@ class StridedInterval:
         if len(ssplit) == 1:
             lower = self.lower_bound >> shift_amount
             upper = self.upper_bound >> shift_amount
-            stride = max(self.stride >> shift_amount, 1)
+            # the shifted values are evenly spaced only if the bits shifted out are the same for all of them
+            stride = self.stride >> shift_amount if self.stride % (1 << shift_amount) == 0 else 1
 
             return StridedInterval(
                 bits=self.bits, lower_bound=lower, upper_bound=upper, stride=stride, uninitialized=self.uninitialized
@@ -543,14 +544,17 @@ class StridedInterval:
         # back together for better precision. Note that it's an improvement from
         # the original WrappedIntervals paper.
 
-        nsplit = self._nsplit()
+        # the sign changes at both poles
+        nsplit = self._psplit()
         if len(nsplit) == 1:
             # preserve the highest bit :-)
             highest_bit_set = self.lower_bound > StridedInterval.signed_max_int(nsplit[0].bits)
 
+            shift_amount = min(shift_amount, self.bits)
             lower = self.lower_bound >> shift_amount
             upper = self.upper_bound >> shift_amount
-            stride = max(self.stride >> shift_amount, 1)
+            # the shifted values are evenly spaced only if the bits shifted out are the same for all of them
+            stride = self.stride >> shift_amount if self.stride % (1 << shift_amount) == 0 else 1
             mask = (2**shift_amount - 1) << (self.bits - shift_amount)
 
             if highest_bit_set:
@@ -561,10 +565,7 @@ class StridedInterval:
             return StridedInterval(
                 bits=self.bits, lower_bound=lower, upper_bound=upper, stride=stride, uninitialized=self.uninitialized
             )
-        a = nsplit[0]._rshift_arithmetic(shift_amount)
-        b = nsplit[1]._rshift_arithmetic(shift_amount)
-
-        return a.union(b)
+        return StridedInterval.least_upper_bound(*[part._rshift_arithmetic(shift_amount) for part in nsplit])
 
     #
     # Comparison operations
@@ -1986,11 +1987,12 @@ class StridedInterval:
 
         if shift_amount.is_integer:
             return (round(self.bits, shift_amount.lower_bound), round(self.bits, shift_amount.lower_bound))
-        if shift_amount.lower_bound < 0:
-            if shift_amount.upper_bound >= 0:
-                return (0, self.bits)
+        if shift_amount.is_empty:
             return (self.bits, self.bits)
-        return (round(self.bits, self.lower_bound), round(self.bits, self.upper_bound))
+        if shift_amount.lower_bound > shift_amount.upper_bound:
+            # the amounts wrap around zero: both small amounts and amounts of at least `bits` occur
+            return (0, self.bits)
+        return (round(self.bits, shift_amount.lower_bound), round(self.bits, shift_amount.upper_bound))
 
     @reversed_processor
     def rshift_logical(self, shift_amount: StridedInterval) -> StridedInterval:
@@ -2075,35 +2077,55 @@ class StridedInterval:
         ret.uninitialized = self.uninitialized
         return ret
 
+    def _lshift(self, shift_amount: int) -> StridedInterval:
+        """
+        Left shift with a concrete shift amount
+
+        :param int shift_amount: Number of bits to shift left.
+        :return: The new StridedInterval after left shifting
+        """
+
+        if self.is_empty:
+            return self
+        if shift_amount >= self.bits:
+            return StridedInterval(bits=self.bits, stride=0, lower_bound=0, upper_bound=0)
+
+        parts = []
+        for si in self._ssplit():
+            if (si.upper_bound << shift_amount) <= self.max_int(self.bits):
+                # nothing is shifted out
+                parts.append(
+                    StridedInterval(
+                        bits=self.bits,
+                        stride=si.stride << shift_amount,
+                        lower_bound=si.lower_bound << shift_amount,
+                        upper_bound=si.upper_bound << shift_amount,
+                    )
+                )
+            else:
+                # high bits are lost: all that is known is that the low `shift_amount` bits are zero
+                step = 1 << shift_amount
+                parts.append(StridedInterval(bits=self.bits, stride=step, lower_bound=0, upper_bound=2**self.bits - step))
+        return StridedInterval.least_upper_bound(*parts)
+
     @reversed_processor
     def lshift(self, shift_amount: StridedInterval) -> StridedInterval:
         lower, upper = self._get_shift_range(shift_amount)
 
-        # Shift the lower_bound and upper_bound by all possible amounts, and
-        # get min/max values from all the resulting values
+        # Shift by all possible amounts, and union all possible results
 
-        new_lower_bound = None
-        new_upper_bound = None
+        ret = None
+
         for amount in range(lower, upper + 1):
-            lower_shifted = self.lower_bound << amount
-            if new_lower_bound is None or lower_shifted < new_lower_bound:
-                new_lower_bound = lower_shifted
-            upper_shifted = self.upper_bound << amount
-            if new_upper_bound is None or upper_shifted > new_upper_bound:
-                new_upper_bound = upper_shifted
+            si_ = self._lshift(amount)
 
-        # NOTE: If this is an arithmetic operation, we should take care
-        # of sign-changes.
+            ret = si_ if ret is None else ret.union(si_)
 
-        ret = StridedInterval(
-            bits=self.bits,
-            stride=max(self.stride << lower, 1),
-            lower_bound=new_lower_bound,
-            upper_bound=new_upper_bound,
-            uninitialized=self.uninitialized,
-        )
+        if ret is None:
+            return StridedInterval.top(self.bits)
+
         ret.normalize()
-
+        ret.uninitialized = self.uninitialized
         return ret
 
     @reversed_processor
